@@ -43,11 +43,11 @@ fn body(ctx: &mut Ctx) {
                     ctx.nontrivial(1);
                 }
                 let args = || vec![format!("v={}", v.to_hex()), format!("radix={}", r)];
-                let x = call(ctx, || u.to_str_radix(r));
+                let x = call(ctx, || u.to_str_radix(r).into_bytes());
                 expect_panic(ctx, "BigUint::to_str_radix(bad radix)", &args, x);
-                let x = call(ctx, || p.to_str_radix(r));
+                let x = call(ctx, || p.to_str_radix(r).into_bytes());
                 expect_panic(ctx, "BigInt::to_str_radix(bad radix)", &args, x);
-                let x = call(ctx, || n.to_str_radix(r));
+                let x = call(ctx, || n.to_str_radix(r).into_bytes());
                 expect_panic(ctx, "BigInt::to_str_radix(bad radix, negative)", &args, x);
                 let x = call(ctx, || BigUint::from_str_radix("10", r).map(|y| nat_of(&y).to_hex()).map_err(|_| ()));
                 expect_panic(ctx, "BigUint::from_str_radix(bad radix)", &args, x);
@@ -88,7 +88,7 @@ fn body(ctx: &mut Ctx) {
             let u = bu_nat(v);
             for r in [2u32, 36] {
                 ctx.case();
-                let x = call(ctx, || u.to_str_radix(r));
+                let x = call(ctx, || u.to_str_radix(r).into_bytes());
                 ctx.compared(1);
                 if let Out::Panic(m) = x {
                     ctx.viol(format!("to_str_radix({}) v={}", r, v.to_hex()), "unexpected panic for an allowed radix", vec![], "text".into(), m);
